@@ -30,6 +30,21 @@ struct Barrier {   // sense-reversing spin barrier
 
 struct Script { std::vector<Case> ops; };
 
+// In this VM the kernel's load balancer sometimes leaves every new thread on its creator's CPU; real parallelism (and
+// with it the variety of interleavings) is then lost. Each thread first moves to its own CPU and then takes the full
+// mask back, so a working balancer stays free to move it.
+#include <sched.h>
+static void spread_this_thread(int t) {
+  cpu_set_t all; CPU_ZERO(&all);
+  if (sched_getaffinity(0, sizeof all, &all) != 0) return;
+  std::vector<int> cpus; for (int k = 0; k < CPU_SETSIZE; ++k) if (CPU_ISSET(k, &all)) cpus.push_back(k);
+  if (cpus.size() < 2) return;
+  static std::atomic<unsigned> base{ 0 };
+  static const unsigned b0 = base.fetch_add(7);
+  cpu_set_t one; CPU_ZERO(&one); CPU_SET(cpus[(b0 + (unsigned)t) % cpus.size()], &one);
+  if (sched_setaffinity(0, sizeof one, &one) == 0) sched_setaffinity(0, sizeof all, &all);
+}
+
 static uint64_t run_shared(const ReuseableDataContainer64& rd, const Case& c) {
   Acc a;
   Clipper64 cl; cl.PreserveCollinear(c.geti("pc") != 0); cl.ReverseSolution(c.geti("rev") != 0);
@@ -106,6 +121,7 @@ static void judge(Ctx& ctx, const Case& c, bool from_replay) {
   std::vector<std::thread> th;
   std::vector<Rng> yr; for (int t = 0; t < T; ++t) yr.emplace_back((uint64_t)c.geti("rseed"), 1000 + (uint64_t)t);
   for (int t = 0; t < T; ++t) th.emplace_back([&, t]() {
+    spread_this_thread(t);
     start.wait();
     got[(size_t)t] = run_script(scripts[(size_t)t], mode == 2 ? &shared_conc : nullptr, (mode == 0 || mode == 3) ? &step : nullptr, &yr[(size_t)t]);
   });
